@@ -139,11 +139,11 @@ pub fn real_trace(v: &RunView, sid: u32) -> RealTrace {
                     target,
                     delay_ms: 0,
                     sendid: ev.as_ref().and_then(|e| e.sendid.clone()),
-                    params: ev.as_ref().and_then(|e| e.params.clone()),
+                    params: ev.as_ref().and_then(payload_of),
                 })
             }
             RecKind::TimerSched { item, delay, .. } => match item_event.get(item) {
-                Some(e) => Some(Obs::Sent { event: e.name.clone(), target: "?".into(), delay_ms: (*delay).max(0) as u64, sendid: e.sendid.clone(), params: e.params.clone() }),
+                Some(e) => Some(Obs::Sent { event: e.name.clone(), target: "?".into(), delay_ms: (*delay).max(0) as u64, sendid: e.sendid.clone(), params: payload_of(e) }),
                 None => Some(Obs::Sent { event: "?".into(), target: "?".into(), delay_ms: (*delay).max(0) as u64, sendid: Some("?".into()), params: Some(vec![("?".into(), "?".into())]) }),
             },
             RecKind::Snapshot { at, config, .. } => {
@@ -222,6 +222,16 @@ fn obs_short(o: &Obs) -> String {
     match o {
         Obs::Mark { tag, args, config } => format!("Mark({} {:?} in {:?})", tag, args, config),
         other => format!("{:?}", other),
+    }
+}
+
+/// The payload of an event as the reference describes it: the name/value pairs, or the value of <content>
+/// under the key '@content'.
+pub fn payload_of(e: &EvDesc) -> Option<Vec<(String, String)>> {
+    match (&e.params, &e.content) {
+        (Some(p), _) => Some(p.clone()),
+        (None, Some(c)) => Some(vec![("@content".to_string(), c.clone())]),
+        (None, None) => None,
     }
 }
 
